@@ -189,3 +189,305 @@ theorem procBucket_exact (e : ε) (ph pa id : String) (rs : List (LRun ε))
         exact ⟨i1, i2, i3, i4⟩
 
 end Bobo.Decider
+
+namespace Bobo.Decider
+open Bobo.Run Bobo.Lattice
+set_option linter.unusedSimpArgs false
+variable {ε : Type}
+
+theorem any_eq_filter {α} (l : List α) (f : α → Bool) : l.any f = !(l.filter f).isEmpty := by
+  induction l with
+  | nil => rfl
+  | cons a rest ih =>
+    simp only [List.any_cons, List.filter_cons]
+    cases hf : f a <;> simp [ih]
+
+/-- a per-bucket list whose records carry the bucket's key, filtered by one key: only THE bucket matters. -/
+theorem buckets_filter_key (t : Table ε) (h : TableWF t) (ph pa id : String)
+    (G : String → List (LRun ε) → List (Rec ε)) (hG0 : G ph [] = [])
+    (hkeys : ∀ bph bpa brs, (∀ r ∈ brs, r.pat.name = bpa) → ∀ x ∈ G bph brs, x.phen = bph ∧ x.pat = bpa) :
+    (t.buckets.flatMap (fun b => G b.1 b.2.2)).filter (keyMatch ph pa id) =
+      (G ph (t.runsFrom ph pa)).filter (keyMatch ph pa id) := by
+  rw [List.filter_flatMap]
+  have hcongr : ∀ b ∈ t.buckets, (G b.1 b.2.2).filter (keyMatch ph pa id) =
+      (fun (b : String × String × List (LRun ε)) =>
+        if b.1 = ph ∧ b.2.1 = pa then (fun rs => (G ph rs).filter (keyMatch ph pa id)) b.2.2 else []) b := by
+    intro b hb
+    obtain ⟨bph, bpa, brs⟩ := b
+    have hrs := mem_buckets t h bph bpa brs hb
+    by_cases hk : bph = ph ∧ bpa = pa
+    · obtain ⟨e1, e2⟩ := hk; subst e1 e2
+      simp only [and_self, if_true]
+    · simp only [hk, if_false]
+      rw [List.filter_eq_nil_iff]
+      intro x hx hkm
+      have hxk := hkeys bph bpa brs (by rw [← hrs]; exact h.names bph bpa) x hx
+      obtain ⟨k1, k2, _⟩ := (keyMatch_iff ph pa id x).mp hkm
+      exact hk ⟨by rw [k1]; exact hxk.1.symm, by rw [k2]; exact hxk.2.symm⟩
+  rw [flatMap_congr' _ _ _ hcongr]
+  exact buckets_flatMap_key t h ph pa (fun rs => (G ph rs).filter (keyMatch ph pa id)) (by simp [hG0])
+
+/-- **`_check_against_runs`, one key, exactly.**  Either the key's run finished on this event — then a
+completed / halted record names the key, the table no longer holds it and no `updated` record names it — or
+no finished record names it and the run stored afterwards is what applying, in order, the `updated` records
+naming the key to the run stored before gives (`applyRec`: what the receiving side does with them). -/
+theorem checkAgainstRuns_exact (e : ε) (t : Table ε) (h : TableWF t) (ph pa id : String)
+    (hlive : ∀ r, t.runAt ph pa id = some r → r.run.halted = false) (p : Pattern ε) :
+    (((checkAgainstRuns e t).2.1 ++ (checkAgainstRuns e t).2.2.1).any (keyMatch ph pa id) = true ∧
+      (checkAgainstRuns e t).1.runAt ph pa id = none ∧
+      (checkAgainstRuns e t).2.2.2.filter (keyMatch ph pa id) = []) ∨
+    (((checkAgainstRuns e t).2.1 ++ (checkAgainstRuns e t).2.2.1).any (keyMatch ph pa id) = false ∧
+      (checkAgainstRuns e t).1.runAt ph pa id =
+        ((checkAgainstRuns e t).2.2.2.filter (keyMatch ph pa id)).foldl (applyRec p) (t.runAt ph pa id)) := by
+  obtain ⟨hl1, hl2, hl3⟩ := checkAgainstRuns_lists e t
+  have f1 := buckets_filter_key t h ph pa id (fun bph brs => (procBucket e bph brs).hc) (by simp [procBucket_nil])
+    (fun bph bpa brs hn => (hc_hi_keys e bph bpa brs hn).1)
+  have f2 := buckets_filter_key t h ph pa id (fun bph brs => (procBucket e bph brs).hi) (by simp [procBucket_nil])
+    (fun bph bpa brs hn => (hc_hi_keys e bph bpa brs hn).2)
+  have f3 := buckets_filter_key t h ph pa id (fun bph brs => (procBucket e bph brs).upd) (by simp [procBucket_nil])
+    (fun bph bpa brs hn => upd_keys e bph bpa brs hn)
+  obtain ⟨x1, x2, x3, x4⟩ := procBucket_exact e ph pa id (t.runsFrom ph pa) (h.ids ph pa) (h.names ph pa)
+  rw [any_eq_filter, List.filter_append, hl1, hl2, hl3, f1, f2, f3, x2, x3, x4, runAt_def,
+    runsFrom_checkAgainstRuns, x1, runAt_def]
+  cases hfind : (t.runsFrom ph pa).find? (fun r => r.run.id == id) with
+  | none => right; simp [contribOf]
+  | some r =>
+    have hrl : r.run.halted = false := hlive r (by rw [runAt_def]; exact hfind)
+    simp only [contribOf]
+    have hs := contrib_shape e ph r
+    generalize contrib e ph r = cr at hs
+    cases hs with
+    | completed r' hid hpat0 => left; simp
+    | halted r' hid hpat0 => left; simp
+    | updated r' hid hpat hle hah hlv =>
+      right
+      simp only [List.append_nil, List.isEmpty_nil, Bool.not_true, List.head?_cons, List.foldl_cons, List.foldl_nil,
+        applyRec, hah, if_true, true_and, Option.some.injEq]
+      obtain ⟨⟨rid, ridx, rh, rhal⟩, rpat⟩ := r'
+      obtain ⟨⟨sid, sidx, sh, shal⟩, spat⟩ := r
+      simp only [LRun.ser] at hid hpat hlv hrl ⊢
+      subst hid hpat hlv hrl
+      rfl
+    | same => right; simp
+
+/-- pattern names resolve to the patterns themselves (no two patterns of one phenomenon, and no two phenomena,
+share a name — `BoboDecider.__init__` keys its tables by these names). -/
+def CfgWF (c : Cfg ε) : Prop :=
+  ∀ P ∈ c.phenomena, ∀ p ∈ P.patterns, c.getPattern P.name p.name = some p
+
+/-- what a stretch of `_check_against_patterns` does, exactly: each key ends at what applying the appended
+`updated` records naming it gives. -/
+def PatExact (c : Cfg ε) (a b : PatAcc ε) : Prop :=
+  ∃ d, b.upd = a.upd ++ d ∧
+    ∀ ph pa id p, c.getPattern ph pa = some p →
+      b.table.runAt ph pa id = (d.filter (keyMatch ph pa id)).foldl (applyRec p) (a.table.runAt ph pa id)
+
+theorem PatExact.refl (c : Cfg ε) (a : PatAcc ε) : PatExact c a a :=
+  ⟨[], by simp, fun _ _ _ _ _ => rfl⟩
+
+theorem PatExact.trans {c : Cfg ε} {a b d : PatAcc ε} (h1 : PatExact c a b) (h2 : PatExact c b d) : PatExact c a d := by
+  obtain ⟨u1, f1, g1⟩ := h1
+  obtain ⟨u2, f2, g2⟩ := h2
+  refine ⟨u1 ++ u2, by rw [f2, f1, List.append_assoc], ?_⟩
+  intro ph pa id p hp
+  rw [g2 ph pa id p hp, g1 ph pa id p hp, List.filter_append, List.foldl_append]
+
+theorem checkPattern_exact (c : Cfg ε) (e : ε) (ph0 : String) (acc acc' : PatAcc ε) (p : Pattern ε)
+    (hres : c.getPattern ph0 p.name = some p)
+    (hs : checkPattern c e ph0 acc p = some acc') : PatExact c acc acc' := by
+  unfold checkPattern at hs
+  cases hb : p.blocks with
+  | nil => simp [hb] at hs
+  | cons b0 rest =>
+    simp only [hb] at hs
+    by_cases hm : startMatch b0.preds e = true
+    · simp only [hm, if_true] at hs
+      split at hs
+      · simp only [Option.some.injEq] at hs; subst hs
+        exact ⟨[], by simp, fun _ _ _ _ _ => rfl⟩
+      · split at hs
+        · cases hadd : acc.table.add ph0 p.name { run := newRun (c.idOf acc.nextId) p b0.group e, pat := p } with
+          | none => simp [hadd] at hs
+          | some t' =>
+            simp only [hadd, Option.some.injEq] at hs
+            subst hs
+            refine ⟨[_], rfl, ?_⟩
+            intro ph pa id p' hp'
+            simp only
+            rw [runAt_add _ _ _ _ _ hadd]
+            have hnone : acc.table.runAt ph0 p.name (c.idOf acc.nextId) = none := by
+              unfold Table.add at hadd
+              cases hx : acc.table.runAt ph0 p.name (newRun (c.idOf acc.nextId) p b0.group e).id with
+              | none => exact hx
+              | some v => simp [hx] at hadd
+            by_cases hk : ph = ph0 ∧ pa = p.name ∧ id = (newRun (c.idOf acc.nextId) p b0.group e).id
+            · obtain ⟨e1, e2, e3⟩ := hk
+              subst e1 e2 e3
+              have hpp : p' = p := by rw [hres] at hp'; exact (Option.some.inj hp').symm
+              subst hpp
+              have hkm : keyMatch ph p'.name (newRun (c.idOf acc.nextId) p' b0.group e).id
+                  (LRun.ser ph { run := newRun (c.idOf acc.nextId) p' b0.group e, pat := p' }) = true :=
+                (keyMatch_ser _ _ _ _ _).mpr ⟨rfl, rfl, rfl⟩
+              have hn2 : acc.table.runAt ph p'.name (newRun (c.idOf acc.nextId) p' b0.group e).id = none := hnone
+              simp only [and_self, if_true, List.filter_cons, hkm, List.filter_nil, List.foldl_cons, List.foldl_nil]
+              rw [hn2]
+              simp only [applyRec, newRun, LRun.ser]
+            · have hkm : keyMatch ph pa id
+                  (LRun.ser ph0 { run := newRun (c.idOf acc.nextId) p b0.group e, pat := p }) = false := by
+                cases hq : keyMatch ph pa id (LRun.ser ph0 { run := newRun (c.idOf acc.nextId) p b0.group e, pat := p }) with
+                | false => rfl
+                | true =>
+                  have := (keyMatch_ser ph pa id ph0 _).mp hq
+                  exact absurd ⟨this.1.symm, this.2.1.symm, this.2.2.symm⟩ hk
+              simp [hk, List.filter_cons, hkm]
+        · simp only [Option.some.injEq] at hs; subst hs
+          exact PatExact.refl c _
+    · simp only [hm, Bool.false_eq_true, if_false, Option.some.injEq] at hs
+      subst hs; exact PatExact.refl c _
+
+theorem foldlM'_rel_mem {α β} (Rel : β → β → Prop) (hrefl : ∀ b, Rel b b) (htrans : ∀ a b c, Rel a b → Rel b c → Rel a c)
+    (f : β → α → Option β) (l : List α) (h : ∀ b a b', a ∈ l → f b a = some b' → Rel b b') :
+    ∀ b b', foldlM' f b l = some b' → Rel b b' :=
+  foldlM'_rel Rel hrefl htrans f l h
+
+theorem checkAgainstPatterns_exact (c : Cfg ε) (hcw : CfgWF c) (e : ε) (t : Table ε) (n : Nat) (acc : PatAcc ε)
+    (hs : checkAgainstPatterns c e t n = some acc) : PatExact c { table := t, nextId := n } acc := by
+  unfold checkAgainstPatterns at hs
+  refine foldlM'_rel (PatExact c) (PatExact.refl c) (fun _ _ _ => PatExact.trans) _ c.phenomena ?_ _ _ hs
+  intro b P b' hP hf
+  exact foldlM'_rel (PatExact c) (PatExact.refl c) (fun _ _ _ => PatExact.trans) _ P.patterns
+    (fun b1 p b1' hp hf1 => checkPattern_exact c e P.name b1 b1' p (hcw P hP p hp) hf1) _ _ hf
+
+end Bobo.Decider
+
+namespace Bobo.Decider
+open Bobo.Run Bobo.Lattice
+set_option linter.unusedSimpArgs false
+variable {ε : Type}
+
+/-- **`update()`, one key, exactly**: unless a completed / halted record of the notification names the key,
+the run stored under it afterwards is what applying, in order, the notification's `updated` records naming it
+to the run stored before gives — which is what a replica does with them. -/
+theorem local_exact (c : Cfg ε) (hcw : CfgWF c) (s s' : DState ε) (e : ε) (nt : Notif ε) (ch : Bool)
+    (hwf : TableWF s.table)
+    (hstep : localStep c s e = some (s', nt, ch))
+    (ph pa id : String) (p : Pattern ε) (hp : c.getPattern ph pa = some p)
+    (hlive : ∀ r, s.table.runAt ph pa id = some r → r.run.halted = false) :
+    (nt.completed ++ nt.halted).any (keyMatch ph pa id) = true ∨
+    s'.table.runAt ph pa id = (nt.updated.filter (keyMatch ph pa id)).foldl (applyRec p) (s.table.runAt ph pa id) := by
+  unfold localStep at hstep
+  have hex := checkAgainstRuns_exact e s.table hwf ph pa id hlive p
+  generalize hcar : checkAgainstRuns e s.table = car at hstep hex
+  obtain ⟨t1, rhc, rhi, rupd⟩ := car
+  simp only at hstep hex
+  cases hcp : checkAgainstPatterns c e t1 s.nextId with
+  | none => simp [hcp] at hstep
+  | some acc =>
+    simp only [hcp, Option.some.injEq, Prod.mk.injEq] at hstep
+    obtain ⟨hs', hnt, _⟩ := hstep
+    obtain ⟨d, hd, hpat⟩ := checkAgainstPatterns_exact c hcw e t1 s.nextId acc hcp
+    simp only [List.nil_append] at hd hpat
+    subst hnt hs'
+    simp only [maybeCache_table]
+    rcases hex with ⟨hany, _, _⟩ | ⟨_, hrun⟩
+    · left
+      rw [List.any_append] at hany
+      simp only [List.any_append]
+      rcases Bool.or_eq_true _ _ |>.mp hany with h1 | h1
+      · simp [h1]
+      · simp [h1]
+    · right
+      rw [hpat ph pa id p hp, hrun, hd, List.filter_append, List.foldl_append]
+
+end Bobo.Decider
+
+namespace Bobo.Decider
+open Bobo.Run Bobo.Lattice
+set_option linter.unusedSimpArgs false
+variable {ε : Type}
+
+/-- a stretch of `_check_against_patterns` stores only live runs. -/
+def PatLive (a b : PatAcc ε) : Prop :=
+  ∀ ph pa id, (∀ r, a.table.runAt ph pa id = some r → r.run.halted = false) →
+    ∀ r, b.table.runAt ph pa id = some r → r.run.halted = false
+
+theorem checkPattern_live (c : Cfg ε) (e : ε) (ph0 : String) (acc acc' : PatAcc ε) (p : Pattern ε)
+    (hs : checkPattern c e ph0 acc p = some acc') : PatLive acc acc' := by
+  unfold checkPattern at hs
+  cases hb : p.blocks with
+  | nil => simp [hb] at hs
+  | cons b0 rest =>
+    simp only [hb] at hs
+    by_cases hm : startMatch b0.preds e = true
+    · simp only [hm, if_true] at hs
+      split at hs
+      · simp only [Option.some.injEq] at hs; subst hs
+        exact fun _ _ _ h => h
+      · rename_i hnc
+        split at hs
+        · cases hadd : acc.table.add ph0 p.name { run := newRun (c.idOf acc.nextId) p b0.group e, pat := p } with
+          | none => simp [hadd] at hs
+          | some t' =>
+            simp only [hadd, Option.some.injEq] at hs
+            subst hs
+            intro ph pa id hl r hr
+            simp only at hr
+            rw [runAt_add _ _ _ _ _ hadd] at hr
+            split at hr
+            · simp only [Option.some.injEq] at hr
+              subst hr
+              simp only [newRun, Run.isComplete, Bool.and_self, hb] at hnc ⊢
+              simpa using hnc
+            · exact hl r hr
+        · simp only [Option.some.injEq] at hs; subst hs
+          exact fun _ _ _ h => h
+    · simp only [hm, Bool.false_eq_true, if_false, Option.some.injEq] at hs
+      subst hs; exact fun _ _ _ h => h
+
+theorem checkAgainstPatterns_live (c : Cfg ε) (e : ε) (t : Table ε) (n : Nat) (acc : PatAcc ε)
+    (hs : checkAgainstPatterns c e t n = some acc) : PatLive { table := t, nextId := n } acc := by
+  unfold checkAgainstPatterns at hs
+  refine foldlM'_rel PatLive (fun _ _ _ _ h => h) (fun _ _ _ h1 h2 ph pa id hl => h2 ph pa id (h1 ph pa id hl))
+    _ c.phenomena ?_ _ _ hs
+  intro b P b' _ hf
+  exact foldlM'_rel PatLive (fun _ _ _ _ h => h) (fun _ _ _ h1 h2 ph pa id hl => h2 ph pa id (h1 ph pa id hl))
+    _ P.patterns (fun b1 p b1' _ hf1 => checkPattern_live c e P.name b1 b1' p hf1) _ _ hf
+
+/-- **finished runs leave the table** (whole `update()`, one key): if the run stored under a key was live
+before the event, whatever is stored under it afterwards is live. -/
+theorem local_live (c : Cfg ε) (s s' : DState ε) (e : ε) (nt : Notif ε) (ch : Bool)
+    (hwf : TableWF s.table) (hstep : localStep c s e = some (s', nt, ch)) (ph pa id : String)
+    (hlive : ∀ r, s.table.runAt ph pa id = some r → r.run.halted = false) :
+    ∀ r, s'.table.runAt ph pa id = some r → r.run.halted = false := by
+  unfold localStep at hstep
+  obtain ⟨x1, _, _, _⟩ := procBucket_exact e ph pa id (s.table.runsFrom ph pa) (hwf.ids ph pa) (hwf.names ph pa)
+  have h1 : ∀ r, (checkAgainstRuns e s.table).1.runAt ph pa id = some r → r.run.halted = false := by
+    intro r hr
+    rw [runAt_def, runsFrom_checkAgainstRuns, x1] at hr
+    cases hfind : (s.table.runsFrom ph pa).find? (fun r => r.run.id == id) with
+    | none => simp [hfind, contribOf] at hr
+    | some r0 =>
+      rw [hfind] at hr
+      simp only [contribOf] at hr
+      have hs := contrib_shape e ph r0
+      generalize contrib e ph r0 = cr at hs hr
+      cases hs with
+      | completed r' hid hpat0 => simp at hr
+      | halted r' hid hpat0 => simp at hr
+      | updated r' hid hpat hle hah hlv => simp only [List.head?_cons, Option.some.injEq] at hr; subst hr; exact hlv
+      | same =>
+        simp only [List.head?_cons, Option.some.injEq] at hr; subst hr
+        exact hlive r0 (by rw [runAt_def]; exact hfind)
+  generalize hcar : checkAgainstRuns e s.table = car at hstep h1
+  obtain ⟨t1, rhc, rhi, rupd⟩ := car
+  simp only at hstep h1
+  cases hcp : checkAgainstPatterns c e t1 s.nextId with
+  | none => simp [hcp] at hstep
+  | some acc =>
+    simp only [hcp, Option.some.injEq, Prod.mk.injEq] at hstep
+    obtain ⟨hs', _, _⟩ := hstep
+    subst hs'
+    simp only [maybeCache_table]
+    exact checkAgainstPatterns_live c e t1 s.nextId acc hcp ph pa id h1
+
+end Bobo.Decider
